@@ -727,6 +727,64 @@ def lower_adapt(R):
             and same(ty.VectorType(ty.Float(), 2), r.Arguments["p1"]) and same(ty.Integer(), r.ReturnType), detail="function type: parameter names in order, parameter and return types")
 
 
+@family("LOWER.adapt.sequence", props=["C05", "C14", "C07", "C03"], functions=["nsl.passes.LowerToIR::LowerToIRVisitor.Context.AdaptType", "nsl.passes.LowerToIR::_CreateLinearIRType"],
+        assumptions=["ordered pairs of types that look alike, adapted one after the other by ONE lowering context (a module's functions are lowered by one context): overloads that differ in one parameter type, "
+                     "arrays with permuted dimensions, vectors / matrices of the same size and another component type (exhaustive over the listed set)"])
+def lower_adapt_sequence(R):
+    """What a front-end type is adapted to does not depend on the types the same context adapted before: the IR type of the second of two
+    overloads has the second one's own parameter types (the wasm type section, CALL and the IR function signature are built from it)."""
+    import nsl.types as ty
+    ir = IR()
+    Ctx = resolve("nsl.passes.LowerToIR::LowerToIRVisitor.Context")
+    from .overload_c import make_function
+    I, F, U = ty.Integer(), ty.Float(), ty.UnsignedInteger()
+
+    def desc(r):
+        if isinstance(r, ir.FunctionType):
+            return ("fn", desc(r.ReturnType), tuple((n, desc(t)) for n, t in r.Arguments.items()))
+        if isinstance(r, ir.ArrayType):
+            return ("arr", tuple(r.Size), desc(r.ElementType))
+        if isinstance(r, ir.VectorType):
+            return ("vec", r.Size, desc(r.ElementType))
+        if isinstance(r, ir.MatrixType):
+            return ("mat", r.RowCount, r.ColumnCount, desc(r.ElementType))
+        if isinstance(r, ir.IntegerType):
+            return "uint" if r.Unsigned else "int"
+        return type(r).__name__
+
+    groups = {
+        "overloads": [make_function("scale", [F, I]), make_function("scale", [I, I]), make_function("scale", [I, F]), make_function("scale", [U, I]), make_function("scale", [ty.VectorType(F, 2), I])],
+        "arrays": [ty.ArrayType(I, [2, 3]), ty.ArrayType(I, [3, 2]), ty.ArrayType(F, [2, 3]), ty.ArrayType(I, [2, 3, 1])],
+        "vectors": [ty.VectorType(F, 3), ty.VectorType(I, 3), ty.VectorType(U, 3), ty.VectorType(F, 4)],
+        "matrices": [ty.MatrixType(F, 3, 3), ty.MatrixType(F, 3, 4), ty.MatrixType(F, 4, 3)],
+    }
+    SRC = "function scale(float v, int n) -> int { return n; }\nfunction scale(int v, int n) -> int { return v * n; }\nexport function f(int a) -> int { return scale(a, 3) + scale(1.5, 2); }"
+    for gname, ts in groups.items():
+        bad = []
+        for t1, t2 in itertools.permutations(ts, 2):
+            try:
+                alone = desc(Ctx().AdaptType(t2))
+                c = Ctx()
+                c.AdaptType(t1)
+                after = desc(c.AdaptType(t2))
+                if after != alone:
+                    bad.append(f"{t2!r} after {t1!r}: {after} (alone: {alone})")
+            except Exception as e:
+                bad.append(f"{t2!r} after {t1!r}: {type(e).__name__}: {e}")
+        R.check(f"LOWER.adapt.sequence[{gname}]", "nsl.passes.LowerToIR::LowerToIRVisitor.Context.AdaptType", not bad, detail=f"{len(bad)} ordered pairs: {bad[:2]}",
+                replay=script("""
+                    import io, contextlib
+                    from nsl import Compiler
+                    src = {{src}}
+                    with contextlib.redirect_stdout(io.StringIO()):
+                        r = Compiler.Compiler().Compile(src)
+                    sigs = {n: [str(t) for t in fn.Type.Arguments.values()] for n, fn in r.IRModule.Functions.items()}
+                    print('IR signatures:', sigs)
+                    two = [v for n, v in sigs.items() if 'scale' in n]
+                    if len(two) == 2 and two[0] == two[1]: print('two overloads with different parameter types have the same IR signature'); print('REPLAY-CONFIRMED')
+                    """, src=SRC) if gname == "overloads" else None)
+
+
 @family("LOWER.argaccess", props=["C01", "C03", "C14", "C06", "C07"], functions=["nsl.passes.RewriteFunctionArgAccess::RewriteFunctionArgAccessVisitor.v_Function",
                                                               "nsl.passes.RewriteFunctionArgAccess::RewriteFunctionArgAccessVisitor.v_VariableAccessInstruction"])
 def lower_argaccess(R):
